@@ -337,8 +337,18 @@ package logdb
 //@ ghostset gLBcalls := old(gLBcalls) + 1
 //@ ghostset gLBptr := ptr(eb.Entries)
 //@ ghostset gLBlen := len(eb.Entries)
-//@ func getMergedFirstBatch [C10]
-//@ trusted in-memory merge of two batches (no store I/O)
+// verified (was trusted). C09 (an overwritten suffix never survives in the stored batch): when the incoming entries
+// start inside the stored last batch, the merged batch is the stored entries BELOW the first incoming index --
+// all of them and only them, whether or not the stored batch has a hole -- followed by exactly the incoming entries
+//@ func getMergedFirstBatch [C10 C09]
+//@ noframe
+//@ free requires disjoint(eb.Entries, lb.Entries) && batchSize > 0
+//@ free requires forall i int, j int :: 0 <= i && i < j && j < len(lb.Entries) ==> lb.Entries[i].Index < lb.Entries[j].Index
+//@ ensures len(result.Entries) >= len(eb.Entries)
+//@ ensures forall i int :: len(result.Entries) - len(eb.Entries) <= i && i < len(result.Entries) ==> result.Entries[i].Index == old(eb.Entries[i - (len(result.Entries) - len(eb.Entries))].Index) && result.Entries[i].Term == old(eb.Entries[i - (len(result.Entries) - len(eb.Entries))].Term)
+//@ ensures forall i int :: 0 <= i && i < len(result.Entries) - len(eb.Entries) ==> result.Entries[i].Index < old(eb.Entries[0].Index) && i < old(len(lb.Entries)) && result.Entries[i].Index == old(lb.Entries[i].Index) && result.Entries[i].Term == old(lb.Entries[i].Term)
+//@ ensures len(result.Entries) - len(eb.Entries) > 0 && len(result.Entries) - len(eb.Entries) < old(len(lb.Entries)) ==> old(lb.Entries[len(result.Entries) - len(eb.Entries)].Index) >= old(eb.Entries[0].Index)
+//@ loop 1 invariant 0 <= i && i <= len(lb.Entries) && (forall j int :: 0 <= j && j < i ==> lb.Entries[j].Index < firstIndex)
 //@ func compactBatchFields [C10]
 //@ trusted in-memory (no store I/O)
 //@ func restoreBatchFields [C10]
